@@ -1,6 +1,7 @@
 package main
 
 import (
+	"bytes"
 	"context"
 	"fmt"
 	"io"
@@ -10,6 +11,7 @@ import (
 	"sort"
 	"strings"
 	"sync"
+	"sync/atomic"
 	"time"
 
 	"github.com/prometheus/client_golang/prometheus"
@@ -35,6 +37,7 @@ type c16gateway struct {
 	groups map[string]map[string]*dto.MetricFamily
 	puts   int
 	posts  int
+	delay  atomic.Int64 // nanoseconds every request takes to be answered (a slow gateway)
 }
 
 func (g *c16gateway) key(path string) string {
@@ -49,6 +52,11 @@ func (g *c16gateway) key(path string) string {
 
 func (g *c16gateway) ServeHTTP(w http.ResponseWriter, r *http.Request) {
 	k := g.key(r.URL.Path)
+	body, _ := io.ReadAll(r.Body)
+	if d := g.delay.Load(); d > 0 {
+		time.Sleep(time.Duration(d))
+	}
+	r.Body = io.NopCloser(bytes.NewReader(body))
 	g.mu.Lock()
 	defer g.mu.Unlock()
 	switch r.Method {
@@ -122,6 +130,9 @@ func c16pushSeq(seq []string, labels map[string]string) []c16pushRow {
 				if kind == "mixed" && id%3 == 0 {
 					t.Fail()
 				}
+				if kind == "long" {
+					time.Sleep(10 * time.Millisecond)
+				}
 			}
 		}
 		scn := scenarios.New().Add(&scenarios.Scenario{Name: "scn", ScenarioFn: fn})
@@ -132,6 +143,13 @@ func c16pushSeq(seq []string, labels map[string]string) []c16pushRow {
 			continue
 		}
 		o := options.RunOptions{Scenario: "scn", MaxDuration: 5 * time.Second, Concurrency: 2, MaxIterations: uint64(6 + 3*k)}
+		gw.delay.Store(0)
+		if kind == "long" {
+			// the run is over while the periodic push of the 5 s refresh is still waiting for a slow gateway: what the
+			// gateway ends up with is still the final state
+			o.MaxDuration, o.MaxIterations = 5300*time.Millisecond, 0
+			gw.delay.Store(int64(800 * time.Millisecond))
+		}
 		ctx, cancel := context.WithCancel(context.Background())
 		if kind == "interrupted" {
 			cancel() // interrupted before its first iteration
@@ -195,7 +213,7 @@ func init() {
 		}
 		defer w.close()
 		kinds := []string{"pass", "mixed", "setupfail", "interrupted"}
-		seqs := [][]string{{"pass", "setupfail"}, {"mixed", "interrupted", "pass"}, {"setupfail", "mixed", "setupfail"}, {"mixed", "mixed"}}
+		seqs := [][]string{{"long"}, {"pass", "setupfail"}, {"mixed", "interrupted", "pass"}, {"setupfail", "mixed", "setupfail"}, {"mixed", "mixed"}}
 		for k := 0; k < c.pick(4, 20); k++ {
 			var s []string
 			for j := 0; j < 2+c.rng.Intn(3); j++ {
